@@ -34,7 +34,7 @@ from .. import core
 LEVEL = "model_checking"
 RULE = (
     "(A) corpus configs (reduced to what the Python APIs can express) + SAMENAME machines x style {functional, builder, "
-    "class} x variant {transitions in State(on=...), transitions as Transition objects / builder.transition()}: deep "
+    "class} x variant {transitions in State(on=...), transitions as Transition objects / builder.transition() (candidate lists as several objects in order), the objects combined with | left-nested / right-nested / balanced}: deep "
     "fingerprint + trace equivalence with create_machine(config); (B) two builds from one definition: run the first to "
     "closure, the second must fingerprint like a fresh build; mutate every dict handed to State and rebuild; (C) discovery: "
     "name shapes {doIt, do_it, doIt2, do2nd, HTTPGet, x, log, assign, raise, spawn_worker} x role {action, guard, service} x "
@@ -91,6 +91,19 @@ def all_cfgs() -> Dict[str, Dict[str, Any]]:
             v["states"]["q"]["states"]["q1"]["on"]["J"] = "#nested.p.p2"
         out[k] = reduce_cfg(v)
     out.update(samename_cfgs())
+    # candidate lists whose ORDER decides (overlapping guards, unguarded fallbacks), on several states and events
+    out["candidates"] = {
+        "id": "cd", "initial": "idle",
+        "states": {
+            "idle": {"on": {
+                "SUBMIT": [{"target": "fast", "guard": "isUrgent", "actions": ["f"]}, {"target": "slow", "guard": "isValid"}, {"target": "rejected"}],
+                "PING": [{"guard": "isValid", "actions": ["p1"]}, {"actions": ["p2"]}],
+                "SKIP": "slow"}},
+            "fast": {"on": {"BACK": "idle", "SUBMIT": [{"target": "slow", "guard": "isValid"}, {"target": "idle"}]}},
+            "slow": {"on": {"BACK": "idle"}},
+            "rejected": {"on": {"BACK": [{"target": "idle", "guard": "isUrgent"}, {"target": "fast"}]}},
+        },
+    }
     return out
 
 
@@ -124,10 +137,18 @@ def to_state(name: str, st: Dict[str, Any], parent_initial: Optional[str], varia
     if "always" in st:
         always = st["always"]
     keep_on = {}
-    for ev, tv in on.items():
-        simple = simple_transition(tv) if variant == "objects" else None
+    def pullable(simple):
         tgt = simple.get("target") if simple else None
-        if simple is not None and (tgt is None or (tgt in siblings and "." not in tgt and not tgt.startswith("#"))):
+        return simple is not None and (tgt is None or (tgt in siblings and "." not in tgt and not tgt.startswith("#")))
+
+    for ev, tv in on.items():
+        if variant != "on" and isinstance(tv, list) and tv and all(pullable(simple_transition(c)) for c in tv):
+            # a candidate list becomes several Transition objects for the same (state, event), in document order
+            for c in tv:
+                pulled.append((name, ev, simple_transition(c)))
+            continue
+        simple = simple_transition(tv) if variant != "on" else None
+        if pullable(simple):
             pulled.append((name, ev, simple))
         else:
             keep_on[ev] = tv
@@ -204,6 +225,26 @@ def collect(cfg, variant):
         if k_src in cfg:
             root_kw[k_dst] = cfg[k_src]
     root = State("", **root_kw) if root_kw else None
+    # the same transitions, combined with the | operator in different association shapes: the order of the candidates of one
+    # (state, event) is the left-to-right order of the expression, whatever the parentheses
+    if variant.startswith("pipe") and len(transitions) > 1:
+        ts = list(transitions)
+        if variant == "pipe-left":
+            g = ts[0]
+            for t in ts[1:]:
+                g = g | t
+        elif variant == "pipe-right":
+            g = ts[-1]
+            for t in reversed(ts[:-1]):
+                g = t | g
+        else:  # balanced
+            def bal(xs):
+                if len(xs) == 1:
+                    return xs[0]
+                mid = len(xs) // 2
+                return bal(xs[:mid]) | bal(xs[mid:])
+            g = bal(ts)
+        transitions = [g]
     return list(top.values()), transitions, root
 
 
@@ -277,7 +318,7 @@ def build_python(cfg, style: str, variant: str, log: List[tuple], gv: bool = Tru
             if "always" in st:
                 alw = st["always"]
             pulled = []
-            if variant == "objects":
+            if variant != "on":
                 for ev in list(on):
                     simple = simple_transition(on[ev])
                     tgt = simple.get("target") if simple else None
@@ -642,7 +683,7 @@ def units(tier: str) -> List[Any]:
     us.append(("positions", None, None, None))
     for name in all_cfgs():
         for style in ("functional", "builder", "class"):
-            for variant in ("on", "objects"):
+            for variant in (("on", "objects") if style == "builder" else ("on", "objects", "pipe-left", "pipe-right", "pipe-balanced")):
                 us.append(("translate", name, style, variant))
     us.append(("discovery", None, None, None))
     return us
